@@ -259,7 +259,7 @@ func (h *Hist) Step() {
 		}
 	case 7:
 		if name != "" {
-			e.Totals(-1, name)
+			e.TotalsOp(-1, name)
 		}
 	case 8, 9: // visits / iterators
 		if name == "" {
@@ -321,7 +321,7 @@ func (h *Hist) Step() {
 		case 2:
 			e.MinMax(si, n, r.Bool(), r.Bool())
 		case 3:
-			e.Totals(si, n)
+			e.TotalsOp(si, n)
 		case 4:
 			e.Visit(si, n, driver.VisitKind(r.Intn(4)), Target(r, m, h.Keys[n]), r.Bool(), -1)
 		}
